@@ -30,7 +30,7 @@ BASES = [("A", 0x41), ("o", 0x6F), ("be-cy", 0x431), ("alef-ar", 0x627), ("ka-de
          ("ka-beng", 0x995), ("ka-khmer", 0x1780)]
 MARKS = [("acutecomb", 0x301), ("gravecomb", 0x300), ("dotbelowcomb", 0x323), ("fatha-ar", 0x64E), ("anusvara-deva", 0x902), ("nukta-deva", 0x93C), ("umark", None),
          ("candrabindu-beng", 0x981)]
-LIGS = [("f_i", None), ("lam_alef-ar", 0xFEFB), ("f_f_i", None), ("a_b_c_d_e_f_g_h_i_j_k", None)]
+LIGS = [("f_i", None), ("lam_alef-ar", 0xFEFB), ("f_f_i", None), ("a_b_c_d_e_f_g_h_i_j_k", None), ("ka_ssa-deva", 0x929)]  # the last one: an encoded Devanagari glyph treated as a ligature
 KEYS = ["top", "bottom", "top.alt", "ogonek", "nukta"]
 coord = st.one_of(st.integers(-300, 900), st.integers(-600, 1800).map(lambda k: k / 2), st.integers(-3000, 9000).map(lambda k: k / 10),
                   st.sampled_from([250.5, 12.5, -1.5, -3.5, 245, 2.5, -2.5, 0.5]))
@@ -66,7 +66,7 @@ def mark_font(draw):
         g = _mk(n, u, 900)
         roles[n] = "ligature"
         ncomp = n.count("_") + 1
-        for k in draw(st.lists(st.sampled_from(KEYS[:3]), min_size=1, max_size=2, unique=True)):
+        for k in draw(st.lists(st.sampled_from(["top", "bottom", "nukta"] if n.endswith("-deva") else KEYS[:3]), min_size=1, max_size=2, unique=True)):
             for i in draw(st.lists(st.integers(1, ncomp), min_size=1, max_size=min(ncomp, 4), unique=True)):
                 g["anchors"].append({"name": "%s_%d" % (k, i), "x": draw(coord), "y": draw(coord)})
         glyphs.append(g)
